@@ -26,7 +26,7 @@ Definition options_from_frame (f : frame) (delimited : bool) : res poptions :=
   do o <- first_options f;
   let nd := MAX_VERSION <=? o_version o in
   if negb (type_compat (o_phys o) (o_logical o)) then Err JAssertion else
-  if negb (preset_ok (o_maxn o)) then Err Conformance else
+  if negb (preset_ok (o_maxn o) (o_maxp o) (o_maxd o)) then Err Conformance else
   Ok {| po_phys := o_phys o; po_logical := o_logical o;
         po_maxn := o_maxn o; po_maxp := o_maxp o; po_maxd := o_maxd o;
         po_name := o_name o; po_gen := o_gen o; po_star := o_star o;
